@@ -504,7 +504,7 @@ type shapeT struct {
 
 // defaults: a default per shape that satisfies the shape's schema
 var defaults = map[string]string{
-	"integer": "7", "integer-int32": "7", "number": "2", "boolean": "true", "string": `"abc"`, "string-enum": `"a"`,
+	"integer": "7", "integer-int32": "7", "integer-int32-enum": "7", "number": "2", "boolean": "true", "string": `"abc"`, "string-enum": `"a"`,
 	"array-integer": "[1,2]", "array-string": `["ab","cd"]`, "array-boolean": "[true]", "allOf-integer": "3", "anyOf-integer": "1",
 	"oneOf-string": `"a"`, "allOf-typeless-member": "3", "integer-diamond": "5", "integer-fallback": "7",
 	"object-flat": `{"i":1}`, "deep-flat": `{"i":1}`,
@@ -524,6 +524,9 @@ func shapesFor(c cellT) []shapeT {
 	shapes := []shapeT{
 		{"integer", `{"type":"integer","minimum":-5,"maximum":100}`, []string{"0", "1", "-1", "7", "100", "101", "-6", "2147483648"}},
 		{"integer-int32", `{"type":"integer","format":"int32"}`, []string{"0", "-2147483648", "2147483647"}},
+		// the decoder hands a 32-bit (64-bit) integer over as such: the listed members are numbers all the same
+		{"integer-int32-enum", `{"type":"integer","format":"int32","enum":[1,2,7]}`, []string{"1", "2", "7", "3"}},
+		{"integer-int64-enum", `{"type":"integer","format":"int64","enum":[1,2,7]}`, []string{"1", "7", "3"}},
 		{"number", `{"type":"number","exclusiveMinimum":true,"minimum":0}`, numbers(c)},
 		{"boolean", `{"type":"boolean"}`, []string{"true", "false"}},
 		{"string", `{"type":"string","minLength":2,"maxLength":5}`, sv},
@@ -733,6 +736,8 @@ func gen(t *rapid.T) Case {
 		if sh.name == "integer-int32" {
 			c.Value = jv.Canon(float64(rapid.SampledFrom([]int{0, 1, -1, 2147483647, -2147483648}).Draw(t, "i32")))
 		}
+	case sh.name == "integer-int32-enum", sh.name == "integer-int64-enum":
+		c.Value = rapid.SampledFrom(sh.values).Draw(t, "tablevalue")
 	case sh.name == "number":
 		c.Value = jv.Canon(drawPrim("number"))
 	case sh.name == "boolean":
